@@ -36,7 +36,7 @@ impl emit_core::ctxt::Ctxt for CountCtxt {
 #[kani::proof]
 #[kani::unwind(4)]
 #[kani::stub(std::thread::panicking, sym_panicking)]
-pub fn c03_q_exit_while_panicking() {
+pub fn c03c04_q_exit_while_panicking() {
     let ctxt = CountCtxt { depth: core::cell::Cell::new(0), enters: core::cell::Cell::new(0), exits: core::cell::Cell::new(0) };
     let panicking: bool = kani::any();
     let api: u8 = kani::any();
